@@ -2,7 +2,7 @@
 # verify a delivered seeded change, run its own quick check against it, remove the worktree
 # usage: seed_one.sh <Cxx> <suffix> <round>
 cd /verif
-/venv/bin/python tools/verify_seed.py /tmp/wt_$1$2 $1 $2 $3 2>&1 | tail -3 || exit 1
+/venv/bin/python tools/verify_seed.py /tmp/wt_$1$2 $1 $2 $3 > /tmp/verify_seed.out 2>&1; rc=$?; tail -3 /tmp/verify_seed.out; [ $rc -eq 0 ] || { echo "rejected: worktree kept"; exit 1; }
 /venv/bin/python tools/run_seeded.py $1$2 2>&1 | tail -3
 git -C /repo status --short | head -3
 git -C /repo worktree remove --force /tmp/wt_$1$2
